@@ -91,6 +91,8 @@ STRING_TEMPLATES = [
 ]
 # post-citation material: every sequence of <= 3 of these after every head (metadata regexes, parenthetical trimming, year parsing)
 POST_HEADS = [
+    "Adarand, supra",
+    "Id.",
     "Foo v. Bar, 1 U.S. 1",
     "Foo v. Bar, 410 U.S. 113, 120",
     "See 2 F.3d 4",
@@ -105,6 +107,7 @@ POST = [
     " (1999)", " (2000)", " (2d Cir. 1994)", " (1993 amendments omitted)", " ()", " ()x)", " (", ")", " (x)", " (quoting (y) z)",
     ", 5", ", at 5-6", " [1999]", " (1999", " 1999)", " (99999)", " (n.d.)", ";", ". ", " (West 1999)", " (May 2, 1999)", " (1999-",
     " (Wyo. ", "\n", " (  holding that x)", " ( x )", "  (z)", " (holding that the 1964 Act applies)",
+    ", slip op. at 5", " note 12, at 240", " n. 4, at 7", " (. 1999)", " (*** 1973)", " (  1993)", " [§ 1993]", " (— 1993)",
 ]
 
 
